@@ -1,1 +1,373 @@
-/- C10 — property theorems (stub: the slice is not built yet). -/
+import GB.C10.Proofs
+import GB.Generated.Facts
+/-
+  C10 — property theorems: gRPC outcomes map to the right HTTP status and a decodable error body.
+  Theorems only (plus non-vacuity examples); helper lemmas live in Proofs.lean.
+
+  The response transcoder (protojson behind `HTTPResponseTranscoder.Transcode`) is a PARAMETER of the model
+  (`Env.stEnc`, `Env.msgEnc`): every theorem below holds for every transcoder; where the property needs something
+  from it (a Status body can be decoded back, it is not empty) that is an explicit hypothesis, and the
+  correspondence run checks those hypotheses on the real marshaler in every case.
+-/
+open GB GB.C10
+
+/-! ### facts tie: what the sources say today (regenerated on every run by extract/c10.go) -/
+
+/-- The switch of the pinned grpc-gateway's `runtime.HTTPStatusFromCode` (read from the module cache with go/ast)
+    gives, row by row, the model's table — for all 17 codes; it has no other rows and its default is 500. -/
+theorem C10_facts_gateway_table :
+    (∀ c, c < 17 → generatedStatus GB.Generated.c10GatewayTable c = some (httpStatusFromCode c)) ∧
+    GB.Generated.c10GatewayTable.length = 17 ∧
+    GB.Generated.c10GatewayDefault = "StatusInternalServerError" := by decide
+
+/-- Constants of webbridge.go: 499 for a cancelled request, the headers of the plain-text fallback. -/
+theorem C10_facts_constants :
+    GB.Generated.c10HttpStatusCanceled = httpStatusCanceled ∧
+    GB.Generated.c10FallbackHeaders = ["text/plain; charset=utf-8", "nosniff"] ∧
+    textPlain = ascii "text/plain; charset=utf-8" := by decide
+
+/-- The model's fallback text is the source's format string applied to (code name, message, transcoding error). -/
+theorem C10_facts_fallback_format (st : St) (terr : Bytes) :
+    fallbackText st terr = sprintfS GB.Generated.c10FallbackFormat.toList [codeName st.code, st.msg, terr] := by
+  have h : GB.Generated.c10FallbackFormat.toList =
+      "unable to transcode response status code = %s desc = %s: %s\n".toList := by decide
+  rw [h]
+  simp [fallbackText, sprintfS, ascii]
+
+/-! ### the status table -/
+
+/-- The table of `runtime.HTTPStatusFromCode` equals the canonical gRPC→HTTP mapping for all 17 codes
+    (a finite quantifier, so `decide` is a proof). -/
+theorem C10_table : ∀ c, c < 17 → httpStatusFromCode c = canonicalHttp c := by decide
+
+/-- Numbers that are not gRPC codes are answered with 500. -/
+theorem C10_table_default (c : Nat) (h : 17 ≤ c) : httpStatusFromCode c = 500 := by
+  obtain ⟨k, rfl⟩ : ∃ k, c = k + 17 := ⟨c - 17, by omega⟩
+  rfl
+
+/-- `errorStatus`: the HTTP status is the error's explicit `HTTPStatus()` if it has one, otherwise the canonical
+    status of its gRPC code — for every error value. -/
+theorem C10_status (e : RawErr) :
+    (errorStatus e).2 = (explicitOf e).getD (canonicalHttp (convert e).code) := by
+  rw [errorStatus_http]; unfold wantStatus; cases explicitOf e <;> rfl
+
+/-- `status.Convert` keeps the message the error was made with (possibly inside a longer text). -/
+theorem C10_message_carried (e : RawErr) : e.rawMessage <:+: (convert e).msg :=
+  rawMessage_infix_convert e
+
+/-- Errors of a request transcoder: a status error passes unchanged, anything else becomes InvalidArgument
+    (response transcoder: Internal) — and still carries the message. -/
+theorem C10_transcoding_error (e : RawErr) (c : Nat) :
+    (∀ st, e.direct = some st → wrapTranscodingError e c = e) ∧
+    (e.direct = none → (convert (wrapTranscodingError e c)).code = c ∧ explicitOf (wrapTranscodingError e c) = none) ∧
+    e.rawMessage <:+: (convert (wrapTranscodingError e c)).msg := by
+  unfold wrapTranscodingError
+  cases hd : e.direct with
+  | some st => simp [rawMessage_infix_convert]
+  | none => simp [convert, RawErr.direct, explicitOf, rawMessage_infix_text]
+
+/-! ### the decision tree of `writeError` -/
+
+/-- Once a status or a byte has been written, errors are not rendered. -/
+theorem C10_written_silent (g : Bool) (t : Option RespTranscoder) (e : RawErr) :
+    writeError true g t e = .nothing := rfl
+
+/-- Client gone (request context cancelled): 499, no body, whatever the error. -/
+theorem C10_client_gone (t : Option RespTranscoder) (e : RawErr) :
+    writeError false true t e = .resp 499 none false [] := rfl
+
+/-- Before the request is bound (router / Bind errors): plain text, the message and a newline. -/
+theorem C10_unbound_plain_text (e : RawErr) :
+    writeError false false none e = .resp (wantStatus e) (some textPlain) true ((convert e).msg ++ [10]) := by
+  simp [writeError, writeTextError_eq]
+
+/-- Bound and encodable: the transcoder's Status body in the negotiated content type. -/
+theorem C10_bound_status_body (t : RespTranscoder) (e : RawErr) (data : Bytes)
+    (h : t.status (convert e) = .ok data) :
+    writeError false false (some t) e = .resp (wantStatus e) (some t.mime) false data := by
+  simp [writeError, transcodeError_ok t e data h]
+
+/-- Bound but the status cannot be encoded (e.g. details of a type unknown to the target): a readable,
+    non-empty text naming the code, the message and the encoding error. -/
+theorem C10_bound_fallback_readable (t : RespTranscoder) (e : RawErr) (terr : Bytes)
+    (h : t.status (convert e) = .error terr) :
+    ∃ body, writeError false false (some t) e = .resp (wantStatus e) (some textPlain) true body ∧
+      body ≠ [] ∧ (convert e).msg <:+: body ∧ e.rawMessage <:+: body ∧
+      codeName (convert e).code <:+: body ∧ terr <:+: body := by
+  refine ⟨fallbackText (convert e) terr, by simp [writeError, transcodeError_err t e terr h],
+    fallbackText_ne_nil _ _, msg_infix_fallbackText _ _, ?_, codeName_infix_fallbackText _ _, terr_infix_fallbackText _ _⟩
+  exact List.IsInfix.trans (rawMessage_infix_convert e) (msg_infix_fallbackText _ _)
+
+/-- What was wrong before fix D10: on exactly that path the body was EMPTY, for every transcoder and error. -/
+theorem C10_prefix_fallback_empty (t : RespTranscoder) (e : RawErr) (terr : Bytes)
+    (h : t.status (convert e) = .error terr) :
+    transcodeErrorPreFix t e = .resp (wantStatus e) (some textPlain) true [] := by
+  simp [transcodeErrorPreFix, errorStatus_http, errorStatus_fst, h]
+
+/-! ### marshaler negotiation -/
+
+/-- `pickRequestMarshaler` = the declarative reading: default without Content-Type, otherwise the first line whose
+    media type (parameters stripped by `mime.ParseMediaType`) is registered, otherwise the 415 error. -/
+theorem C10_negotiation_request (r : Registry) (pm : List (Option Bytes)) :
+    pickRequestMarshaler r pm = match negotiatedReq r pm with
+      | some m => .ok m
+      | none => .error unsupportedMediaTypeErr :=
+  pickRequestMarshaler_eq r pm
+
+/-- A successful `Bind` picked the negotiated types: first exactly-matching Accept line, else the request's. -/
+theorem C10_negotiation_response (r : Registry) (pm : List (Option Bytes)) (acc : List Bytes) (cs ss : Bool) (b : Bound)
+    (h : bind r pm acc cs ss = .ok b) :
+    negotiatedReq r pm = some b.req ∧ negotiatedResp r pm acc = some b.resp :=
+  bind_ok_negotiated r pm acc cs ss b h
+
+/-- The error of an unsupported Content-Type asks for 415 and nothing else does so implicitly. -/
+theorem C10_415_error : wantStatus unsupportedMediaTypeErr = 415 ∧ (convert unsupportedMediaTypeErr).code = cInvalidArgument := by
+  decide
+
+/-! ### end to end: `ServeHTTP` -/
+
+/-- **Failure rendering.** Whatever the scenario (origin, error value, headers, negotiation) and whatever the
+    transcoder does: if the call fails before the first response byte with error `e` of origin `o` and the client
+    is still there, then the status is `e`'s explicit HTTP status or the canonical one of its code; for the
+    unbound origins (router, Bind) the body is plain text `message ⏎`; for all bound origins it is the
+    transcoder's Status body in the negotiated type when the status can be encoded, and otherwise the readable
+    fallback text. -/
+theorem C10_failure (sc : Scenario) (env : Env) (hg : sc.gone = false) (o : Origin) (e : RawErr)
+    (ho : (serve sc env).origin = some o) (he : (serve sc env).err = some e) :
+    (serve sc env).status = wantStatus e ∧ (serve sc env).bound = o.bound ∧
+    (o.bound = false →
+      (serve sc env).ct = some textPlain ∧ (serve sc env).nosniff = true ∧
+      (serve sc env).body = .bytes ((convert e).msg ++ [10])) ∧
+    (o.bound = true → ∃ m, negotiatedResp registry env.pm sc.accept = some m ∧
+      (∀ data, env.stEnc (convert e) = .ok data →
+        (serve sc env).ct = some m.mime ∧ (serve sc env).nosniff = false ∧ (serve sc env).body = .bytes data) ∧
+      (∀ terr, env.stEnc (convert e) = .error terr →
+        (serve sc env).ct = some textPlain ∧ (serve sc env).nosniff = true ∧
+        (serve sc env).body = .bytes (fallbackText (convert e) terr))) := by
+  refine serve_ind sc env (fun r => r.origin = some o → r.err = some e →
+    r.status = wantStatus e ∧ r.bound = o.bound ∧
+    (o.bound = false → r.ct = some textPlain ∧ r.nosniff = true ∧ r.body = .bytes ((convert e).msg ++ [10])) ∧
+    (o.bound = true → ∃ m, negotiatedResp registry env.pm sc.accept = some m ∧
+      (∀ data, env.stEnc (convert e) = .ok data → r.ct = some m.mime ∧ r.nosniff = false ∧ r.body = .bytes data) ∧
+      (∀ terr, env.stEnc (convert e) = .error terr →
+        r.ct = some textPlain ∧ r.nosniff = true ∧ r.body = .bytes (fallbackText (convert e) terr)))) ?_ ?_ ?_ ho he
+  · intro o' g e' hb hgone ho he
+    have hgf : g = false := by cases g <;> simp_all
+    subst hgf
+    obtain ⟨h1, h2, _, _⟩ := failResp_fields o' false none e' []
+    rw [h1] at ho; rw [h2] at he
+    injection ho with ho; injection he with he; subst ho; subst he
+    have hw := C10_unbound_plain_text e'
+    simp [failResp, hw, hb]
+  · intro b o' g t e' h hbind hb hgone hst hm ho he
+    have hgf : g = false := by cases g <;> simp_all
+    subst hgf
+    obtain ⟨h1, h2, _, _⟩ := failResp_fields o' false (some t) e' h
+    rw [h1] at ho; rw [h2] at he
+    injection ho with ho; injection he with he; subst ho; subst he
+    obtain ⟨_, hneg⟩ := bind_ok_negotiated _ _ _ _ _ _ hbind
+    cases henc : t.status (convert e') with
+    | ok data =>
+      have hw := C10_bound_status_body t e' data henc
+      simp [failResp, hw, hb, hneg, ← hst, henc, hm]
+    | error terr =>
+      have hw : writeError false false (some t) e' = .resp (wantStatus e') (some textPlain) true (fallbackText (convert e') terr) := by
+        simp [writeError, transcodeError_err t e' terr henc]
+      simp [failResp, hw, hb, hneg, ← hst, henc]
+  · intro b r _ hs ho
+    rw [hs.1] at ho; cases ho
+
+/-- **The error body is never empty and can be read.** With a transcoder whose Status bodies decode back
+    (`dec`, the client's decoder) and are non-empty: the body of every rendered failure is non-empty and either
+    decodes to exactly the status (code, message, details) or is text containing the message. -/
+theorem C10_failure_body (sc : Scenario) (env : Env) (hg : sc.gone = false) (o : Origin) (e : RawErr)
+    (ho : (serve sc env).origin = some o) (he : (serve sc env).err = some e)
+    (dec : Bytes → Option St)
+    (hlaw : ∀ st b, env.stEnc st = .ok b → dec b = some st ∧ b ≠ []) :
+    ∃ b, (serve sc env).body = .bytes b ∧ b ≠ [] ∧
+      ((o.bound = true ∧ (serve sc env).nosniff = false ∧ dec b = some (convert e)) ∨
+       ((serve sc env).ct = some textPlain ∧ (convert e).msg <:+: b)) := by
+  obtain ⟨_, _, hu, hb⟩ := C10_failure sc env hg o e ho he
+  cases hbo : o.bound with
+  | false =>
+    obtain ⟨hct, _, hbody⟩ := hu hbo
+    exact ⟨_, hbody, by simp, Or.inr ⟨hct, infix_append_right _ _ _ (List.infix_refl _)⟩⟩
+  | true =>
+    obtain ⟨m, _, hok, herr⟩ := hb hbo
+    cases henc : env.stEnc (convert e) with
+    | ok data =>
+      obtain ⟨_, hns, hbody⟩ := hok data henc
+      obtain ⟨hd, hne⟩ := hlaw _ _ henc
+      exact ⟨_, hbody, hne, Or.inl ⟨rfl, hns, hd⟩⟩
+    | error terr =>
+      obtain ⟨hct, _, hbody⟩ := herr terr henc
+      exact ⟨_, hbody, fallbackText_ne_nil _ _, Or.inr ⟨hct, msg_infix_fallbackText _ _⟩⟩
+
+/-- **The model meets the executable specification the driver judges the implementation with** (`failureWhy`,
+    Spec.lean), for every scenario: given a transcoder whose Status bodies decode back and that can encode a
+    status exactly when the specification says it is encodable (`encodable`: valid UTF-8 message; for JSON every
+    detail resolvable by the target and well-formed). The correspondence run checks both hypotheses on the real
+    protojson-backed transcoder in every case. -/
+theorem C10_failure_meets_spec (sc : Scenario) (env : Env) (hg : sc.gone = false) (o : Origin) (e : RawErr)
+    (ho : (serve sc env).origin = some o) (he : (serve sc env).err = some e)
+    (dec : Bytes → Option St)
+    (hlaw : ∀ st b, env.stEnc st = .ok b → dec b = some st ∧ b ≠ [])
+    (henc : ∀ m, negotiatedResp registry env.pm sc.accept = some m →
+      (env.stEnc (convert e)).toBool = encodable m.mime (convert e)) :
+    ∃ b, (serve sc env).body = .bytes b ∧
+      failureWhy e (serve sc env).bound (((negotiatedResp registry env.pm sc.accept).map (·.mime)).getD [])
+        (serve sc env).status (serve sc env).ct b ⟨dec b⟩ = none := by
+  obtain ⟨hs, hbd, hu, hb⟩ := C10_failure sc env hg o e ho he
+  cases hbo : o.bound with
+  | false =>
+    obtain ⟨hct, _, hbody⟩ := hu hbo
+    refine ⟨_, hbody, ?_⟩
+    have hinf : isInfix (convert e).msg ((convert e).msg ++ [10]) = true :=
+      (isInfix_iff _ _).2 (infix_append_right _ _ _ (List.infix_refl _))
+    simp [failureWhy, hs, hbd, hbo, hct, hinf]
+  | true =>
+    obtain ⟨m, hneg, hok, herr⟩ := hb hbo
+    have hE := henc m hneg
+    cases hstenc : env.stEnc (convert e) with
+    | ok data =>
+      obtain ⟨hct, _, hbody⟩ := hok data hstenc
+      obtain ⟨hd, hne⟩ := hlaw _ _ hstenc
+      refine ⟨_, hbody, ?_⟩
+      rw [hstenc] at hE
+      simp [failureWhy, hs, hbd, hbo, hct, hneg, ← hE, Except.toBool, hd, hne]
+    | error terr =>
+      obtain ⟨hct, _, hbody⟩ := herr terr hstenc
+      refine ⟨_, hbody, ?_⟩
+      rw [hstenc] at hE
+      have hinf : isInfix (convert e).msg (fallbackText (convert e) terr) = true :=
+        (isInfix_iff _ _).2 (msg_infix_fallbackText _ _)
+      simp [failureWhy, hs, hbd, hbo, hct, hneg, ← hE, Except.toBool, hinf, fallbackText_ne_nil]
+
+/-- **Success.** A call that does not fail answers 200 in the negotiated content type with the transcoded
+    response value — the whole message or the field named by `response_body`. (A server stream that ends before
+    its first message has no body and no Content-Type.) -/
+theorem C10_success (sc : Scenario) (env : Env) (h : (serve sc env).origin = none) :
+    (serve sc env).status = 200 ∧ (serve sc env).err = none ∧
+    ∃ m sse, negotiatedResp registry env.pm sc.accept = some m ∧
+      (((serve sc env).ct = none ∧ (serve sc env).body = .bytes [] ∧ sc.rpc = .serverStream ∧ sc.n = 0) ∨
+       ∃ sel, traverseFieldPath respFields sc.rbp = some sel ∧ (serve sc env).ct = some m.mime ∧
+         (((serve sc env).body = .bytes (env.msgEnc sel) ∧ sc.rpc ≠ .serverStream) ∨
+          ((serve sc env).body = .items sel sc.n sse ∧ sc.rpc = .serverStream))) := by
+  refine serve_ind sc env (fun r => r.origin = none →
+    r.status = 200 ∧ r.err = none ∧
+    ∃ m sse, negotiatedResp registry env.pm sc.accept = some m ∧
+      ((r.ct = none ∧ r.body = .bytes [] ∧ sc.rpc = .serverStream ∧ sc.n = 0) ∨
+       ∃ sel, traverseFieldPath respFields sc.rbp = some sel ∧ r.ct = some m.mime ∧
+         ((r.body = .bytes (env.msgEnc sel) ∧ sc.rpc ≠ .serverStream) ∨
+          (r.body = .items sel sc.n sse ∧ sc.rpc = .serverStream)))) ?_ ?_ ?_ h
+  · intro o g e _ _ ho
+    rw [(failResp_fields o g none e []).1] at ho; cases ho
+  · intro b o g t e h _ _ _ _ _ ho
+    rw [(failResp_fields o g (some t) e h).1] at ho; cases ho
+  · intro b r hbind hs _
+    obtain ⟨_, hneg⟩ := bind_ok_negotiated _ _ _ _ _ _ hbind
+    exact ⟨hs.2.2.1, hs.2.1, b.resp, b.sse, hneg, hs.2.2.2.2⟩
+
+/-- **415.** If the request has Content-Type lines and none of them names a registered media type, the answer
+    is 415 (unless routing already failed / Bind was replaced), as plain text carrying the message. -/
+theorem C10_415 (sc : Scenario) (env : Env) (h1 : sc.inj ≠ .router) (h2 : sc.inj ≠ .bind)
+    (hun : negotiatedReq registry env.pm = none) :
+    (serve sc env).status = 415 ∧ (serve sc env).ct = some textPlain ∧
+    (serve sc env).body = .bytes (rpcErrorText ⟨cInvalidArgument, ascii "Unsupported Media Type", []⟩ ++ [10]) ∧
+    (serve sc env).origin = some .bind := by
+  have hb := bind_unsupported registry env.pm sc.accept (sc.rpc == .clientStream) (sc.rpc == .serverStream) hun
+  have hw := C10_unbound_plain_text unsupportedMediaTypeErr
+  unfold serve
+  simp only [beq_iff_eq, h1, h2, ↓reduceIte, hb]
+  simp only [natBindErr, unsupportedMediaTypeErr] at hw ⊢
+  simp [failResp, hw]
+  decide
+
+/-! ### headers and trailers -/
+
+/-- `ProxyMDFilter.filterResponse` + `appendHeaders`: every value of an allow-listed metadata key appears in the
+    HTTP headers under the canonical form of `prefix+key` (values already there are kept). -/
+theorem C10_headers_allowed (allow : List Bytes) (pre : Bytes) (md h0 : MD) (k v : Bytes)
+    (hk : k ∈ allow) (hv : v ∈ mdGet md (lower k)) :
+    v ∈ mdGet (appendHeaders h0 (filterResponse allow pre md)) (canonicalHeaderKey (lower (pre ++ k))) :=
+  mem_headers_of_allowed allow pre md h0 k v hk hv
+
+/-- Unary calls that reach the target (success, target status, missing response, response that cannot be
+    encoded): allow-listed response headers appear as HTTP headers, and so do allow-listed trailers unless the
+    target misbehaved by sending a second message (`n ≥ 2`). This holds for error responses too. -/
+theorem C10_headers_unary (sc : Scenario) (env : Env) (t : RespTranscoder) (k v : Bytes) :
+    (k ∈ sc.allowH → v ∈ mdGet sc.hdr (lower k) →
+      v ∈ mdGet (serveUnary sc env t).hdrs (canonicalHeaderKey (lower (sc.prefH ++ k)))) ∧
+    (sc.n ≤ 1 → k ∈ sc.allowT → v ∈ mdGet sc.trl (lower k) →
+      v ∈ mdGet (serveUnary sc env t).hdrs (canonicalHeaderKey (lower (sc.prefT ++ k)))) := by
+  have hH : k ∈ sc.allowH → v ∈ mdGet sc.hdr (lower k) →
+      v ∈ mdGet (appendHeaders [] (headerMD sc)) (canonicalHeaderKey (lower (sc.prefH ++ k))) :=
+    fun hk hv => mem_headers_of_allowed _ _ _ _ _ _ hk hv
+  have hHT : k ∈ sc.allowH → v ∈ mdGet sc.hdr (lower k) →
+      v ∈ mdGet (appendHeaders (appendHeaders [] (headerMD sc)) (trailerMD sc)) (canonicalHeaderKey (lower (sc.prefH ++ k))) :=
+    fun hk hv => mem_appendHeaders _ _ _ _ (Or.inr (hH hk hv))
+  have hT : k ∈ sc.allowT → v ∈ mdGet sc.trl (lower k) →
+      v ∈ mdGet (appendHeaders (appendHeaders [] (headerMD sc)) (trailerMD sc)) (canonicalHeaderKey (lower (sc.prefT ++ k))) :=
+    fun hk hv => mem_headers_of_allowed _ _ _ _ _ _ hk hv
+  unfold serveUnary
+  repeat' split
+  all_goals simp only [(failResp_fields _ _ _ _ _).2.2.2]
+  all_goals first
+    | exact ⟨hHT, fun _ => hT⟩
+    | (refine ⟨?_, ?_⟩
+       · first | exact hHT | exact hH
+       · intro hn; first | exact hT | (exfalso; simp_all; omega))
+
+/-- Server-streaming calls: allow-listed response headers always appear as HTTP headers; allow-listed trailers
+    appear as HTTP headers when nothing was sent yet (`n = 0`), and as HTTP trailers after a successful stream. -/
+theorem C10_headers_stream (sc : Scenario) (env : Env) (t : RespTranscoder) (sse : Bool) (k v : Bytes) :
+    (k ∈ sc.allowH → v ∈ mdGet sc.hdr (lower k) →
+      v ∈ mdGet (serveStream sc env t sse).hdrs (canonicalHeaderKey (lower (sc.prefH ++ k)))) ∧
+    (k ∈ sc.allowT → v ∈ mdGet sc.trl (lower k) → (sc.n = 0 ∨ (serveStream sc env t sse).origin = none) →
+      v ∈ mdGet (serveStream sc env t sse).hdrs (canonicalHeaderKey (lower (sc.prefT ++ k))) ∨
+      v ∈ mdGet (serveStream sc env t sse).trls (canonicalHeaderKey (lower (sc.prefT ++ k)))) := by
+  have hH : k ∈ sc.allowH → v ∈ mdGet sc.hdr (lower k) →
+      v ∈ mdGet (appendHeaders [] (headerMD sc)) (canonicalHeaderKey (lower (sc.prefH ++ k))) :=
+    fun hk hv => mem_headers_of_allowed _ _ _ _ _ _ hk hv
+  have hHT : k ∈ sc.allowH → v ∈ mdGet sc.hdr (lower k) →
+      v ∈ mdGet (appendHeaders (appendHeaders [] (headerMD sc)) (trailerMD sc)) (canonicalHeaderKey (lower (sc.prefH ++ k))) :=
+    fun hk hv => mem_appendHeaders _ _ _ _ (Or.inr (hH hk hv))
+  have hT : k ∈ sc.allowT → v ∈ mdGet sc.trl (lower k) →
+      v ∈ mdGet (appendHeaders (appendHeaders [] (headerMD sc)) (trailerMD sc)) (canonicalHeaderKey (lower (sc.prefT ++ k))) :=
+    fun hk hv => mem_headers_of_allowed _ _ _ _ _ _ hk hv
+  have hT0 : k ∈ sc.allowT → v ∈ mdGet sc.trl (lower k) →
+      v ∈ mdGet (appendHeaders [] (trailerMD sc)) (canonicalHeaderKey (lower (sc.prefT ++ k))) :=
+    fun hk hv => mem_headers_of_allowed _ _ _ _ _ _ hk hv
+  unfold serveStream
+  repeat' split
+  all_goals simp only [(failResp_fields _ _ _ _ _).2.2.2, (failResp_fields _ _ _ _ _).1]
+  all_goals first
+    | exact ⟨hHT, fun hk hv _ => Or.inl (hT hk hv)⟩
+    | exact ⟨hH, fun hk hv _ => Or.inr (hT0 hk hv)⟩
+    | (refine ⟨hH, fun hk hv h => ?_⟩; exfalso; simp_all)
+
+/-! ### non-vacuity: concrete scenarios -/
+
+/-- NotFound from the target with details of a type unknown to the target, JSON negotiated, a transcoder that
+    cannot encode them: 404 with a non-empty fallback text (the D10 scenario). -/
+example :
+    (serve (exScenario .target (.status ⟨5, [110, 111], [⟨.unknownType, 117⟩]⟩) 0) exEnv).status = 404 ∧
+    (serve (exScenario .target (.status ⟨5, [110, 111], [⟨.unknownType, 117⟩]⟩) 0) exEnv).origin = some .targetStatus ∧
+    (serve (exScenario .target (.status ⟨5, [110, 111], [⟨.unknownType, 117⟩]⟩) 0) exEnv).ct = some textPlain ∧
+    (serve (exScenario .target (.status ⟨5, [110, 111], [⟨.unknownType, 117⟩]⟩) 0) exEnv).body ≠ .bytes [] := by decide
+
+/-- Router error with an explicit HTTP status: 405, unbound. -/
+example :
+    (serve (exScenario .router (.http 405 (.status ⟨12, [110, 111], []⟩)) 0) exEnv).status = 405 ∧
+    (serve (exScenario .router (.http 405 (.status ⟨12, [110, 111], []⟩)) 0) exEnv).origin = some .router ∧
+    (serve (exScenario .router (.http 405 (.status ⟨12, [110, 111], []⟩)) 0) exEnv).bound = false := by decide
+
+/-- Success: 200, application/json, the transcoder's bytes. -/
+example :
+    (serve (exScenario .none (.plain []) 1) exEnv).status = 200 ∧
+    (serve (exScenario .none (.plain []) 1) exEnv).origin = none ∧
+    (serve (exScenario .none (.plain []) 1) exEnv).body = .bytes [123, 125] ∧
+    (serve (exScenario .none (.plain []) 1) exEnv).ct = some (ascii "application/json") := by decide
+
+/-- An unsupported Content-Type exists: `img/png`. -/
+example : negotiatedReq registry [some (ascii "img/png")] = none := by decide
